@@ -15,6 +15,7 @@
 package service
 
 import (
+	"crypto/rand"
 	"crypto/tls"
 	"errors"
 	"fmt"
@@ -555,7 +556,14 @@ func (svr *Server) getSession(svc *service, req *message.ConnectMessage, resp *m
 	// Check to see if the client supplied an ID, if not, generate one and set
 	// clean session.
 	if len(req.ClientID()) == 0 {
-		req.SetClientID([]byte(fmt.Sprintf("internalclient%d", svc.id)))
+		// The generated identifier must be unique (MQTT-3.1.3-6): it must not be
+		// one that a client can be expected to supply itself, or the session
+		// stored for that client would be replaced and deleted with this one.
+		var rnd [12]byte
+		if _, err := rand.Read(rnd[:]); err != nil {
+			return err
+		}
+		req.SetClientID([]byte(fmt.Sprintf("auto-%x", rnd)))
 		req.SetCleanSession(true)
 	}
 
